@@ -160,7 +160,10 @@ def mro(classes, name):
 
 class MethodTranslator:
     def __init__(self, cls_prefix, kind, chain, emitted, globals_, extra=()):
-        self.extra = list(extra)      # explicit leading parameters of every method (name, coq type)
+        # explicit leading parameters of every method (name, coq type); the numeric
+        # structure is always the first one, so that signatures do not depend on
+        # whether a body happens to use it
+        self.extra = [("N", "NumOps")] + list(extra)
         self.p = cls_prefix
         self.kind = kind              # 'F' or 'S'
         self.chain = chain            # MRO list of ClassInfo
@@ -537,10 +540,8 @@ HEADER = """(* GENERATED by gen/c12_semiring.py from %(path)s (sha1 %(sha)s) - d
 From Coq Require Import ZArith String List Bool.
 From PL.C12 Require Import ModelPy.
 Import ListNotations.
-Open Scope string_scope.
+Local Open Scope string_scope.
 
-Section Gen.
-Variable N : NumOps.
 """
 
 
@@ -589,7 +590,6 @@ def translate(repo):
         out.append(mt.method(m))
         emitted.add(m)
         index.append(("generic", m, mt.find_method(m)[0].name))
-    out.append("End Gen.\n")
     out.append("(* resolution table (class prefix, method, defining class):\n%s *)\n"
                % "\n".join("   %s %s %s" % t for t in index))
     return "\n".join(out), index
